@@ -12,6 +12,7 @@ package c20
 
 import (
 	"crypto/ecdsa"
+	"encoding/json"
 	"fmt"
 	"math/big"
 	"math/rand"
@@ -203,18 +204,39 @@ func (h *hist) remember(tx *types.Transaction) {
 	}
 }
 
+// witness renders the operation log while holding the log's lock (concurrent drivers keep
+// appending to it).
 func (h *hist) witness() interface{} {
 	h.mu.Lock()
 	defer h.mu.Unlock()
 	ops := h.ops
-	if len(ops) > 400 {
-		ops = append(append([]opRec{}, ops[:1]...), ops[len(ops)-399:]...)
+	if len(ops) > 120 {
+		ops = append(append([]opRec{}, ops[:1]...), ops[len(ops)-119:]...)
 	}
-	return map[string]interface{}{"accounts": len(h.addrs), "ops": ops}
+	b, err := json.Marshal(map[string]interface{}{"accounts": len(h.addrs), "ops_total": len(h.ops), "ops": ops})
+	if err != nil {
+		return err.Error()
+	}
+	return json.RawMessage(b)
 }
+
+var (
+	violMu   sync.Mutex
+	violSeen = map[string]int{}
+)
 
 func (h *hist) violation(class, msg string) {
 	atomic.StoreInt32(&h.bad, 1)
+	violMu.Lock()
+	violSeen[class]++
+	n := violSeen[class]
+	violMu.Unlock()
+	if n > 10 {
+		// the same class many times in one child (a known finding on the thorough tier): keep the
+		// verdict and the message, spare the op-list witness
+		h.c.Violation(class, msg, nil)
+		return
+	}
 	h.c.Violation(class, msg, h.witness())
 }
 
